@@ -50,7 +50,7 @@ def apply (d : Doc) : Act → Doc
       else d.deleteBlock (d.pos a) (d.pos b)
   | .setCursor none => { d with gap := 0 }
   | .setCursor (some c) => if d.has c then { d with gap := d.pos c + 1 } else d
-  | .regSection n => { d with secNodes := n :: d.secNodes }
+  | .regSection n => if d.has n then d else { d with secNodes := n :: d.secNodes }
   | .section n =>
       if !d.has n then { d with items := d.items ++ [n], gap := d.items.length + 1 }
       else
